@@ -29,3 +29,11 @@ Definition server_status (t : tok) : option N := http_value (tok_http_status t).
 (* does the status a token's variant is sent with satisfy the client's condition for the same token? *)
 Definition status_roundtrip (t : tok) : bool :=
   match server_status t with Some c => cond_holds (tok_condition t) c | None => false end.
+
+(* the encoder the generated IntoResponse uses for a variant's payload: `cat` is the content category of the variant's
+   first media type, `ty` the payload's primitive ("String" stands for String / &'static str, "Bytes" for Vec<u8>),
+   `plain` says the payload type is not optional, an array or boxed. "raw" = the value itself (axum labels a String
+   text/plain and bytes application/octet-stream). Table from Gen/Methods.v. *)
+Definition payload_encoder (cat ty : string) (plain : bool) : string :=
+  if plain && existsb (fun r => String.eqb (fst r) cat && String.eqb (snd r) ty) server_raw_payload then "raw"
+  else server_payload_encoder.
